@@ -262,8 +262,14 @@ int main(int argc, char** argv)
 {
     auto const a = vf::parse_args(argc, argv);
     report r(a);
+#if VF_PART_ENABLED(0)
     if (a.nshards == 1 || a.shard % 3 == 0) for_type<float>(r);
+#endif
+#if VF_PART_ENABLED(1)
     if (a.nshards == 1 || a.shard % 3 == 1) for_type<double>(r);
+#endif
+#if VF_PART_ENABLED(2)
     if (a.nshards == 1 || a.shard % 3 == 2) for_type<long double>(r);
+#endif
     return r.finish();
 }
